@@ -133,3 +133,21 @@ func ResolvedVersions(g *resolve.Graph, name, alias string, direct bool) []strin
 	}
 	return out
 }
+
+// GraphVulnIDs is the reference model's unfiltered vulnerability set of a resolved graph: the
+// ids of the records that affect (reference evaluator Affected) at least one non-root node.
+func GraphVulnIDs(g *resolve.Graph, recs []OSV, system string) map[string]bool {
+	eco := Ecosystem(system)
+	out := map[string]bool{}
+	for i, n := range g.Nodes {
+		if i == 0 {
+			continue
+		}
+		for _, r := range recs {
+			if !out[r.ID] && Affected(r, eco, n.Version.Name, n.Version.Version) {
+				out[r.ID] = true
+			}
+		}
+	}
+	return out
+}
